@@ -273,6 +273,8 @@ PROGRAM_SETS = {
         [["encaps", "decaps"], ["refresh", "encrypt"]],
         [["header_md", "header_md"], ["encrypt", "decaps"]],
         [["encrypt"], ["header_md"], ["keygen"]],
+        [["encrypt"], ["encrypt"]],
+        [["encrypt", "header_md"], ["encrypt"]],
     ],
     "thorough": [
         [["encrypt", "encaps"], ["header_md", "keygen"]],
